@@ -19,7 +19,7 @@ NA = {
 CHECKS = {
     "C06": dict(
         engine="ctxsim", cat="exploration", technique="deterministic simulation: seeded baton-scheduler over real threads (settrace pre-emption), solo-vs-concurrent differential oracle",
-        text="Seeded search over thread interleavings of 2-3 real threads parked and released one at a time at every traced line of jaxtyping/ (every opcode of _storage.py in the thorough tier), random/PCT/window strategies; each thread's transcript must equal its solo transcript. Sampling, not proof; exploration is the honest level for an all-schedules property.",
+        text="Seeded search over thread interleavings of 2-3 real threads parked and released one at a time at every traced line of jaxtyping/ (every opcode of _storage.py, and in a share of runs of every file), random / PCT / window / same-line-rendezvous strategies; each thread's transcript must equal its solo transcript. Sampling, not proof; exploration is the honest level for an all-schedules property.",
         note="Trusted: the baton scheduler, the interpreter of generated programs; pre-emption granularity is a source line outside _storage.py; asynchronous exceptions inside jaxtyping's own frames are outside the fault model."),
     "C05": dict(
         engine="ctxsim", cat="exploration", technique="deterministic simulation: seeded block-tree programs with injected exits (Exception/BaseException from body, typechecker, array attributes), before=after differential on the context stack",
@@ -31,11 +31,11 @@ CHECKS = {
         note="Scenarios are seeded (sampled); the fault space of each scenario is exhausted. Trusted: seams (Duck arrays, metaclasses, registered node), white-box memo read."),
     "C12": dict(
         engine="ctxsim", cat="fault_enumeration", technique="deterministic simulation with single-fault enumeration over an operation catalogue + seeded multi-fault histories; clean-vs-after-history probe battery",
-        text="Every operation of a catalogue (array/PyTree checks, decorated calls of all styles, decorations sharing annotation objects, pickling, hook install/import/uninstall, print_bindings) x every call-out x 7 exception classes, then a probe battery whose verdict vector must equal the one recorded on the clean process state; plus seeded random histories with 0-3 faults.",
+        text="Every operation of a catalogue (array/PyTree checks, decorated calls of all styles, decorations sharing annotation objects, pickling, hook install/import/uninstall, print_bindings) x every call-out x 7 exception classes, then a probe battery whose verdict vector must equal the one recorded on the clean process state; plus seeded random histories with 0-3 faults and insertion runs (a base history of checks inside contexts must give the same verdicts with unrelated activity spliced in, also inside the live context).",
         note="Probe battery is finite; white-box flags (flatten mode, '?' label, _skip_instancecheck, cache_from_source identity) are read directly and reported."),
     "C18": dict(
         engine="hooksim", cat="exploration", technique="deterministic simulation of run histories over one cache directory: real importlib + real files, simulated mtime clock, soft process restart, disk-fault injection (lost/failed/torn pyc writes, crash mid-run), model of expected instrumentation per run",
-        text="Seeded histories of 2-6 runs over a generated package forest with nested imports, hook subsets, checker changes, source edits (same/different length, clock forward/backward), reloads and disk faults; per run every imported module must be instrumented iff the current hook covers it, by the current checker, with the current source's code.",
+        text="Seeded histories of 2-6 runs over a generated package forest with nested imports, hook subsets, checker changes (incl. a project-local checker package), source edits (same/different length, clock forward/backward, sources that do not compile), reloads, runs with dont_write_bytecode and disk faults (ENOSPC, lost/torn writes, deleted caches, crash at the k-th write); per run every completed module load must be instrumented iff the current hook covers it, by the current checker, with the current source's code.",
         note="Process restart is simulated in-process (sys.modules/meta_path/caches purged); a seeded sample is cross-validated with real subprocesses in the thorough tier. Spy typecheckers are stubs."),
     "C11": dict(
         engine="hooksim", cat="exploration", technique="deterministic simulation of install/import/uninstall histories over a generated package forest with spy typecheckers; reference model of the instrumented set",
@@ -67,7 +67,7 @@ CHECKS = {
         note="Model trusted."),
     "C19": dict(
         engine="ctxsim", cat="exploration", technique="deterministic simulation: seeded toggle/call histories incl. toggles from a second baton-scheduled thread and from the body; disabled-vs-plain differential; subprocess environment configurations",
-        text="Every spelling of the switches, every moment of toggling relative to decoration and call, all callable kinds, ill- and well-typed arguments; calls must equal the plain callable when disabled and linearise at the single read of the flag.",
+        text="Every spelling of the switches, every moment of toggling relative to decoration and call (also from the body and from another baton-scheduled thread), all callable kinds, no_type_check below/above/applied later, hooked modules, ill- and well-typed arguments; calls must equal the plain twin when disabled, be checked in a fresh context when enabled, and respect the real-time order of toggles (linearisation); environment spellings in fresh interpreters.",
         note="Environment route uses real subprocesses."),
 }
 
